@@ -293,12 +293,17 @@ func checkE2E(c e2eCase) (nt bool, v *verdict) {
 			lc.c.Close()
 		}
 	}()
+	// every host object ever handed to the processor: the per-host connection count (the input of least-connection) must
+	// come back to 0 for each of them once its connections are gone
+	var handed []*host.Host
 	mk := func(i int, backup bool) *host.Host {
 		t := host.TypeMain
 		if backup {
 			t = host.TypeBackup
 		}
-		return host.NewWithType(backends[i].Addr, t) // fresh objects, as the controller passes them
+		h := host.NewWithType(backends[i].Addr, t) // fresh objects, as the controller passes them
+		handed = append(handed, h)
+		return h
 	}
 	detection := time.Duration(maxInt(c.Fall, c.Rise)+3)*hcInterval + 60*time.Millisecond
 	settle := func() {
@@ -326,6 +331,7 @@ func checkE2E(c e2eCase) (nt bool, v *verdict) {
 		}
 		return backup
 	}
+	var liveMu sync.Mutex
 	connect := func(where string) (int, *verdict) {
 		cl, err := net.DialTimeout("tcp", px.Addr, 2*time.Second)
 		if err != nil {
@@ -339,7 +345,9 @@ func checkE2E(c e2eCase) (nt bool, v *verdict) {
 			return -1, nil // closed by the proxy: no usable host (or dial to the backend failed)
 		}
 		bi := int(b[0] - 'A')
+		liveMu.Lock() // connect is also called from concurrent goroutines
 		live = append(live, &liveConn{cl, bi})
+		liveMu.Unlock()
 		return bi, nil
 	}
 	for i, o := range c.Ops {
@@ -458,6 +466,15 @@ func checkE2E(c e2eCase) (nt bool, v *verdict) {
 				live[k].c.Close()
 				live = append(live[:k], live[k+1:]...)
 			}
+		case "burst":
+			// connections opened at once, without waiting for the health state to converge: some may be dialled to a backend
+			// that is down and not yet detected. Nothing is judged here but that the survivors are relayed; the failed dials
+			// matter to the connection-count oracle at the end.
+			for k := 0; k < o.N; k++ {
+				if _, v := connect(where); v != nil {
+					return nt, v
+				}
+			}
 		case "connect":
 			settle() // health state has converged: the usable set is well defined
 			us := usable()
@@ -524,6 +541,28 @@ func checkE2E(c e2eCase) (nt bool, v *verdict) {
 			}
 		}
 	}
+	// quiescence: every client connection closed -> the active-connection count of every host object is 0 again
+	for _, lc := range live {
+		lc.c.Close()
+	}
+	live = nil
+	deadline := time.Now().Add(5 * time.Second)
+	for {
+		var bad *host.Host
+		for _, h := range handed {
+			if h.ConnCount() != 0 {
+				bad = h
+				break
+			}
+		}
+		if bad == nil {
+			break
+		}
+		if time.Now().After(deadline) {
+			return nt, &verdict{"conn-count-not-zero-at-quiescence", fmt.Sprintf("5s after every client connection was closed host %s still counts %d active connection(s): least-connection keeps treating it as busier than it is", bad.Addr, bad.ConnCount())}
+		}
+		time.Sleep(5 * time.Millisecond)
+	}
 	return nt, nil
 }
 
@@ -567,6 +606,9 @@ func genE2E(t *rapid.T) e2eCase {
 			o.Op = "up"
 		case x == 10:
 			o.Op, o.N = "closeconn", rapid.IntRange(0, 9).Draw(t, "cc")
+			if rapid.Bool().Draw(t, "burst") {
+				o.Op, o.N = "burst", rapid.IntRange(1, 8).Draw(t, "bn")
+			}
 		default:
 			o.Op, o.N, o.Conc = "connect", rapid.IntRange(1, 6).Draw(t, "cn"), rapid.Bool().Draw(t, "conc")
 		}
